@@ -36,6 +36,7 @@ func rulesC19(c *Ctx) {
 	ruleCount(c, "C19.PAGING.COUNT", "objectz")
 	c.Floor("C19.PAGING.COUNT", 1)
 	ruleComparators(c, "C19.CMP", "objectz", "compare")
+	ruleComparatorDirectionSet(c, "C19.CMPDIR", "objectz", "compare")
 	c.Floor("C19.CMP", 5)
 	ruleIdTieBreak(c, "C19.TIEBREAK", p.SSAFunc(p.Method("objectz", "ObjectStore", "newRowComparator")))
 	ruleRowComparatorFirstNonZero(c, "C19.CMP", p.SSAFunc(p.Method("objectz", "compoundObjectComparator", "compare")))
